@@ -625,6 +625,10 @@ def monitored(ctx, cases):
             ctx.count('nul_probe_runs')
             if isinstance(p, list) and p[0] == p[1]:
                 ctx.count('nul_probe_same_name_for_distinct_cdef_lists')
+                ctx.violation('key-collision:nul-in-cdef-comment',
+                              "cdef lists ['int fa(int); //a\\0int fb(int); //b'] and ['int fa(int); "
+                              "//a', 'int fb(int); //b'] are distinct inputs with one hashed key "
+                              "and module name %s" % p[0], c)
                 ctx.note("outside the NUL-free assumption: cdef lists ['int fa(int); //a\\0int "
                          "fb(int); //b'] and ['int fa(int); //a', 'int fb(int); //b'] both parse "
                          "and get the same module name %s" % p[0])
@@ -694,12 +698,12 @@ def determinism(ctx, seeds, hashseeds, mon_names=None, per=25):
 
 def run(ctx):
     rng = ctx.rng('gen')
-    n, per = ctx.scale(2000, 100000), 50
+    n, per = ctx.scale(1500, 100000), 50
     seeds = [rng.getrandbits(48) for _ in range(n)]
     cases = [{'mode': 'mon', 'seeds': seeds[i:i + per], 'nflat': 12} for i in range(0, n, per)]
     cases.append({'mode': 'nulprobe'})
     mon_names = monitored(ctx, cases)
-    dn = ctx.scale(200, 3000)
+    dn = ctx.scale(150, 3000)
     hs = [0, 0, 1] + [rng.getrandbits(32) for _ in range(3)]
     ctx.extra['hash_seeds'] = hs
     determinism(ctx, seeds[:dn], hs, mon_names)
